@@ -10,8 +10,8 @@ import YowsupVerif.Lemmas.Lifecycle
 namespace Yow.Life
 
 /-- the structural invariant holds in every reachable state -/
-theorem C16_invariant (r p : Bool) (is : List In) : Inv (run { reconnectOpt := r, passive := p } is).1 :=
-  inv_run _ (inv_init r p) is
+theorem C16_invariant (r p c : Bool) (is : List In) : Inv (run { reconnectOpt := r, passive := p, control := c } is).1 :=
+  inv_run _ (inv_init r p c) is
 
 /-- A connect announces itself once and triggers one login attempt; each connection announced as up is
     announced as down exactly once — in every reachable state and for every next event: 'connected' is
@@ -19,32 +19,32 @@ theorem C16_invariant (r p : Bool) (is : List In) : Inv (run { reconnectOpt := r
     attempt); 'disconnected' is announced at most once per event, only for a connection that was up or being
     established, and always when an up connection goes down. Hence announcements of up and of the matching
     down alternate along every history. -/
-theorem C16_up_down_alternate (r p : Bool) (is : List In) (i : In) :
-    let s := (run { reconnectOpt := r, passive := p } is).1
+theorem C16_up_down_alternate (r p c : Bool) (is : List In) (i : In) :
+    let s := (run { reconnectOpt := r, passive := p, control := c } is).1
     let o := step s i
     (o.2.count .up ≤ 1) ∧ (o.2.count .downNear ≤ 1) ∧
     (o.2.count .up = 1 ↔ (s.connected = false ∧ o.1.connected = true)) ∧
     (o.2.count .up = (o.2.filter (fun x => match x with | .authAttempt _ => true | _ => false)).length) ∧
     (o.2.count .downNear = 1 → (s.nstate = .connecting ∨ s.nstate = .connected)) ∧
     (s.connected = true → o.1.connected = false → o.2.count .downNear = 1) :=
-  announcements _ (C16_invariant r p is) i
+  announcements _ (C16_invariant r p c is) i
 
 /-- Nothing is ever written to a connection that is down. -/
-theorem C16_no_write_when_down (r p : Bool) (is : List In) (i : In) (d : Nat)
-    (hw : Out.written d ∈ (step (run { reconnectOpt := r, passive := p } is).1 i).2) :
-    let s := (run { reconnectOpt := r, passive := p } is).1
+theorem C16_no_write_when_down (r p c : Bool) (is : List In) (i : In) (d : Nat)
+    (hw : Out.written d ∈ (step (run { reconnectOpt := r, passive := p, control := c } is).1 i).2) :
+    let s := (run { reconnectOpt := r, passive := p, control := c } is).1
     s.connected = true ∧ s.cur = some d ∧ ∃ dp : Disp, s.disps[d]? = some dp ∧ dp.established = true ∧ dp.open_ = true :=
-  no_write_when_down _ (C16_invariant r p is) i d hw
+  no_write_when_down _ (C16_invariant r p c is) i d hw
 
 /-- Transport state is reset so that a later connect starts afresh: in every reachable state in which no connection
     exists or is being established (every dispatcher ever created has been closed), a connect request — from the
     application or as the CONNECT event — creates exactly one new connection attempt. -/
-theorem C16_connect_after_all_closed (r p : Bool) (is : List In)
-    (hc : ∀ dp ∈ (run { reconnectOpt := r, passive := p } is).1.disps, dp.open_ = false) :
-    let s := (run { reconnectOpt := r, passive := p } is).1
+theorem C16_connect_after_all_closed (r p c : Bool) (is : List In)
+    (hc : ∀ dp ∈ (run { reconnectOpt := r, passive := p, control := c } is).1.disps, dp.open_ = false) :
+    let s := (run { reconnectOpt := r, passive := p, control := c } is).1
     (step s .connectReq).2 = [.created s.disps.length] ∧ (step s .connectEvt).2 = [.created s.disps.length] := by
   intro s
-  have hinv : Inv s := C16_invariant r p is
+  have hinv : Inv s := C16_invariant r p c is
   have hd : s.nstate = .disconnected := by
     by_cases hn : s.nstate = .disconnected
     · exact hn
@@ -65,58 +65,97 @@ theorem C16_connect_after_all_closed (r p : Bool) (is : List In)
 theorem C16_authed_announced_once (s : St) : (step s .success).2 = [.authed] := rfl
 
 /-- A login failure is delivered to the application and closes the connection. -/
-theorem C16_failure_delivered_and_closed (r p : Bool) (is : List In)
-    (hc : (run { reconnectOpt := r, passive := p } is).1.nstate = .connected) :
-    let s := (run { reconnectOpt := r, passive := p } is).1
+theorem C16_failure_delivered_and_closed (r p c : Bool) (is : List In)
+    (hc : (run { reconnectOpt := r, passive := p, control := c } is).1.nstate = .connected) :
+    let s := (run { reconnectOpt := r, passive := p, control := c } is).1
     ∃ d, s.cur = some d ∧ (step s .failure).2 = [.entityFailure, .closed d, .downNear] ∧ (step s .failure).1.connected = false :=
-  failure_closes _ (C16_invariant r p is) hc
+  failure_closes _ (C16_invariant r p c is) hc
 
 /-- A stream error of ANY kind (also unknown kinds) is delivered and closes the connection. -/
-theorem C16_stream_error_delivered_and_closed (r p : Bool) (is : List In) (k : ErrKind)
-    (hc : (run { reconnectOpt := r, passive := p } is).1.nstate = .connected) :
-    let s := (run { reconnectOpt := r, passive := p } is).1
+theorem C16_stream_error_delivered_and_closed (r p c : Bool) (is : List In) (k : ErrKind)
+    (hc : (run { reconnectOpt := r, passive := p, control := c } is).1.nstate = .connected) :
+    let s := (run { reconnectOpt := r, passive := p, control := c } is).1
     ∃ d, s.cur = some d ∧ (step s (.streamError k)).2 = [.entityStreamError k, .closed d, .downNear] ∧
       (step s (.streamError k)).1.connected = false :=
-  let ⟨d, a, b, c, _⟩ := stream_error_closes _ (C16_invariant r p is) hc k
-    (run_unknownErrRaises { reconnectOpt := r, passive := p } is)
+  let ⟨d, a, b, c, _⟩ := stream_error_closes _ (C16_invariant r p c is) hc k
+    (run_unknownErrRaises { reconnectOpt := r, passive := p, control := c } is)
   ⟨d, a, b, c⟩
 
 /-- The application is reconnected automatically after a stream error unless it was a sign-in conflict or
     the reconnect option is off: when the loop delivers the deferred 'disconnected', exactly one new
     connection is created in the first case and none otherwise; transport state is reset (fresh login) and
     the keep-alive is stopped. -/
-theorem C16_stream_error_reconnect_policy (r p : Bool) (is : List In) (k : ErrKind)
-    (hc : (run { reconnectOpt := r, passive := p } is).1.nstate = .connected)
-    (hp : (run { reconnectOpt := r, passive := p } is).1.pendingDown = 0)
-    (hf : (run { reconnectOpt := r, passive := p } is).1.reconnectFlag = false) :
-    let s := (run { reconnectOpt := r, passive := p } is).1
+theorem C16_stream_error_reconnect_policy (r p c : Bool) (is : List In) (k : ErrKind)
+    (hc : (run { reconnectOpt := r, passive := p, control := c } is).1.nstate = .connected)
+    (hp : (run { reconnectOpt := r, passive := p, control := c } is).1.pendingDown = 0)
+    (hf : (run { reconnectOpt := r, passive := p, control := c } is).1.reconnectFlag = false)
+    (hb : (run { reconnectOpt := r, passive := p, control := c } is).1.rebootFlag = false) :
+    let s := (run { reconnectOpt := r, passive := p, control := c } is).1
     let s2 := (step (step s (.streamError k)).1 .loop)
     s2.2 = (if s.reconnectOpt && k != .conflict then [.downAll, .created s.disps.length] else [.downAll]) ∧
     s2.1.noiseFresh = true ∧ s2.1.pingThread = false :=
-  reconnect_policy _ (C16_invariant r p is) hc k
-    (run_unknownErrRaises { reconnectOpt := r, passive := p } is) hp hf
+  reconnect_policy _ (C16_invariant r p c is) hc k
+    (run_unknownErrRaises { reconnectOpt := r, passive := p, control := c } is) hp hf hb
+
+/-- With the encryption control layer in the stack: when the server confirms the key upload of a passive login, the control layer
+    reboots the connection — it closes it, and when the loop delivers the deferred 'disconnected' exactly one new connection is
+    started, with the passive flag switched off and the reboot flag cleared. -/
+theorem C16_control_reboot (r p : Bool) (is : List In)
+    (hc : (run { reconnectOpt := r, passive := p, control := true } is).1.nstate = .connected)
+    (hp : (run { reconnectOpt := r, passive := p, control := true } is).1.pendingDown = 0)
+    (hf : (run { reconnectOpt := r, passive := p, control := true } is).1.reconnectFlag = false)
+    (hb : (run { reconnectOpt := r, passive := p, control := true } is).1.rebootFlag = false) :
+    let s := (run { reconnectOpt := r, passive := p, control := true } is).1
+    let o1 := step s .keysFlushed
+    let o2 := step o1.1 .loop
+    (∃ d, s.cur = some d ∧ o1.2 = [.closed d, .downNear]) ∧ o2.2 = [.downAll, .created s.disps.length] ∧
+    o2.1.rebootFlag = false ∧ o2.1.passive = false ∧ o2.1.nstate = .connecting :=
+  control_reboot _ (C16_invariant r p true is) rfl_control hc hp hf hb
+where rfl_control := run_control { reconnectOpt := r, passive := p, control := true } is rfl
+
+/-- That reboot happens once: in every history the server and the network can produce, a set reboot flag always has its deferred
+    'disconnected' still queued, and the next run of the loop clears it — after which reconnects follow the stream-error policy
+    (`C16_stream_error_reconnect_policy`, whose hypothesis `rebootFlag = false` this discharges). -/
+theorem C16_reboot_flag_is_transient (r p c : Bool) (is : List In)
+    (ha : AllowedRun { reconnectOpt := r, passive := p, control := c } is = true) :
+    let s := (run { reconnectOpt := r, passive := p, control := c } is).1
+    (s.rebootFlag = true → 1 ≤ s.pendingDown) ∧ (step s .loop).1.rebootFlag = false :=
+  reboot_flag_transient r p c is ha
+
+/-- Without the control layer the flag is never set. -/
+theorem C16_no_control_no_reboot (r p : Bool) (is : List In) :
+    (run { reconnectOpt := r, passive := p, control := false } is).1.rebootFlag = false :=
+  no_control_no_reboot r p is
 
 /-- Keep-alive: never closes while every ping is answered before the next one is due … -/
-theorem C16_ping_answered_never_closes (r p : Bool) (is : List In)
-    (ht : (run { reconnectOpt := r, passive := p } is).1.pingThread = true)
-    (ho : (run { reconnectOpt := r, passive := p } is).1.outstanding = 0) :
-    let s := (run { reconnectOpt := r, passive := p } is).1
+theorem C16_ping_answered_never_closes (r p c : Bool) (is : List In)
+    (ht : (run { reconnectOpt := r, passive := p, control := c } is).1.pingThread = true)
+    (ho : (run { reconnectOpt := r, passive := p, control := c } is).1.outstanding = 0) :
+    let s := (run { reconnectOpt := r, passive := p, control := c } is).1
     (∀ d, Out.closed d ∉ (step s .pingTick).2) ∧ (step s .pingTick).1.outstanding = 1 ∧
     (step (step s .pingTick).1 (.pong true)).1.outstanding = 0 ∧ (step s .pingTick).1.pingThread = true :=
-  ping_answered_never_closes _ (C16_invariant r p is) ht ho
+  ping_answered_never_closes _ (C16_invariant r p c is) ht ho
 
 /-- … and closes the connection when a ping is still unanswered at the time the next one is due. -/
-theorem C16_ping_timeout_closes (r p : Bool) (is : List In)
-    (ht : (run { reconnectOpt := r, passive := p } is).1.pingThread = true)
-    (ho : 1 ≤ (run { reconnectOpt := r, passive := p } is).1.outstanding)
-    (hc : (run { reconnectOpt := r, passive := p } is).1.nstate = .connected) :
-    let s := (run { reconnectOpt := r, passive := p } is).1
+theorem C16_ping_timeout_closes (r p c : Bool) (is : List In)
+    (ht : (run { reconnectOpt := r, passive := p, control := c } is).1.pingThread = true)
+    (ho : 1 ≤ (run { reconnectOpt := r, passive := p, control := c } is).1.outstanding)
+    (hc : (run { reconnectOpt := r, passive := p, control := c } is).1.nstate = .connected) :
+    let s := (run { reconnectOpt := r, passive := p, control := c } is).1
     ∃ d, s.cur = some d ∧ (step s .pingTick).2 = [.closed d, .downNear] ∧ (step s .pingTick).1.pingThread = false :=
-  ping_unanswered_closes _ (C16_invariant r p is) ht ho hc
+  ping_unanswered_closes _ (C16_invariant r p c is) ht ho hc
 
 /-- Why the three repairs were needed (pinned-tree behaviours as model witnesses are in DESIGN §8). -/
 example : (run {} [.connectReq, .dConnected 0, .success, .pingTick, .pong true, .pingTick, .pingTick, .loop]).2 =
     [.created 0, .up, .authAttempt false, .authed, .pingSent, .written 0, .pingSent, .written 0, .closed 0, .downNear, .downAll] := by
+  decide
+
+/-- non-vacuity of the reboot theorems: a passive login with the control layer, the upload confirmed, the loop, the second login,
+    then a sign-in conflict: no further connection -/
+example : (run { reconnectOpt := true, passive := true, control := true }
+      [.connectReq, .dConnected 0, .success, .keysFlushed, .loop, .dConnected 1, .success, .streamError .conflict, .loop]).2 =
+    [.created 0, .up, .authAttempt true, .authed, .closed 0, .downNear, .downAll, .created 1, .up, .authAttempt false, .authed,
+     .entityStreamError .conflict, .closed 1, .downNear, .downAll] := by
   decide
 
 end Yow.Life
